@@ -408,7 +408,13 @@ class Check:
                 "known_findings_hit": self.known_hits,
                 **self.coverage,
             },
-            "assumptions": self.assumptions,
+            "assumptions": self.assumptions or [
+                "the theorems are about the hand-written models; the tie to the code is this run's correspondence (model evaluated "
+                "inside Coq on the same inputs as the implementation) plus the constants / start-up / loop-skeleton translator",
+                "values are integers in all correspondence runs; Python dict/set semantics are modelled as insertion-ordered association lists",
+                "asyncio, floats of the pacing arithmetic, re/codecs, pydantic/YAML, aiohttp/aiozmq/softioc/Kafka are exercised or stubbed, "
+                "not modelled (DESIGN.md section 6)",
+            ],
             "wall_s": round(wall, 2),
             "violations": len(self.violations),
         }
